@@ -324,7 +324,8 @@ Definition with_window (s : merge_stmt) (from to : Z) : merge_stmt :=
   {| ms_fp := ms_fp s; ms_table := ms_table s; ms_matchers := ms_matchers s; ms_types := ms_types s;
      ms_proj := ms_proj s; ms_from := from; ms_to := to; ms_out := ms_out s; ms_group := ms_group s;
      ms_order := ms_order s; ms_limit := ms_limit s; ms_tree_agg := ms_tree_agg s; ms_fn_agg := ms_fn_agg s;
-     ms_distinct := ms_distinct s |}.
+     ms_distinct := ms_distinct s; ms_distinct_pre := ms_distinct_pre s; ms_from_strict := ms_from_strict s;
+     ms_to_incl := ms_to_incl s |}.
 Definition stmt_gives (c : case) (s : merge_stmt) (from to : Z) (handed : list row) : bool :=
   match eval_merge_stmt [c_sel c] (with_window s from to) (db_of c) with
   | Some rows => rows_same rows (group_rows handed)
@@ -348,18 +349,21 @@ Definition sql_judge (stmts : list merge_stmt) (c : case) : Z :=
            then 1%Z else 2%Z
        end.
 
-(* what the MergeStackTraces statement of a case evaluates to, as a flame graph total (wrapping sum of the rows under the
-   root); (0, 0) when the statement has no value.  Printed for the cases sql_judge rejects: expected / got in the replay *)
+(* what the statements of a case (MergeStackTraces, left and right side of RenderDiff) evaluate to, as flame graph totals
+   (wrapping sum of the rows under the root); (0, 0) when the statement has no value.  Printed for the cases sql_judge rejects: expected / got in the replay *)
 Definition root_total (rows : list row) : Z :=
   fold_left (fun a r => if N.eqb (r_parent r) 0 then wrap64 (a + r_total r) else a) rows 0%Z.
-Definition stmt_total (stmts : list merge_stmt) (c : case) : Z * Z :=
-  match nth_error stmts (Z.to_nat (c_stmt c)) with
-  | None => (0, 0)%Z
-  | Some s => match eval_merge_stmt [c_sel c] (with_window s (c_mfrom c) (c_mto c)) (db_of c) with
-              | Some rows => (1, root_total rows)%Z
-              | None => (0, 0)%Z
-              end
-  end.
+Definition stmt_total (stmts : list merge_stmt) (c : case) : (Z * Z) * ((Z * Z) * (Z * Z)) :=
+  let d := c_diff c in
+  let ev := fun from to =>
+    match nth_error stmts (Z.to_nat (c_stmt c)) with
+    | None => (0, 0)%Z
+    | Some s => match eval_merge_stmt [c_sel c] (with_window s from to) (db_of c) with
+                | Some rows => (1, root_total rows)%Z
+                | None => (0, 0)%Z
+                end
+    end in
+  (ev (c_mfrom c) (c_mto c), (ev (dc_lfrom d) (dc_lto d), ev (dc_rfrom d) (dc_rto d))).
 
 (* end to end: the flame graph total of the merged tree = sum of the stored root totals; each profile conserves;
    the merged tree is the sum.  Result: 0 fine, 2 violation, 3 only the known node-id collision inside a profile
@@ -494,7 +498,7 @@ Definition hyp_summary (ws : list (list int)) : Z * Z :=
    (ids whose diff view differs from the model, ids whose statements do not evaluate to the rows handed over,
     number of cases whose statements were judged, totals the rejected statements evaluate to)) *)
 Definition all_results (stmts : list merge_stmt) (ws : list (list int))
-  : list Z * list Z * list (Z * Z) * (Z * Z * Z) * list Z * (list Z * list Z * Z * list (Z * (Z * Z))) :=
+  : list Z * list Z * list (Z * Z) * (Z * Z * Z) * list Z * (list Z * list Z * Z * list (Z * ((Z * Z) * ((Z * Z) * (Z * Z))))) :=
   let cs := decoded rd_case ws in
   let hs := map (fun c => (c_id c, map (prof_hyp (c_fnh c)) (c_profs c))) cs in
   let rs := flat_map snd hs in
